@@ -234,6 +234,100 @@ def part_lp_reader_model(ck, variant):
     return len(lib)
 
 
+def mps_tie_cases(rng, n, G):
+    """(cid, kind, text or None, script) for the MPS reader tie: independently rendered files, token-mutated files, library-written files"""
+    out = []
+    for j, (nm, t) in enumerate(G.mps_accept_probes()):
+        tb = t.encode("latin-1")
+        out.append(("p%d" % j, "probe " + nm, tb, "CASE p%d\nPUT f %s\nREAD h0 f MPS\nDUMPO h0\n" % (j, enc(tb))))
+    for j, (nm, t) in enumerate(sorted(G.mps_reason_files().items())):
+        tb = t.encode("latin-1")
+        out.append(("q%d" % j, "reason " + nm, tb, "CASE q%d\nPUT f %s\nREAD h0 f MPS\nDUMPO h0\n" % (j, enc(tb))))
+    for i in range(n):
+        cid = "m%d" % i
+        if i % 3 == 2:
+            P = G.gen_problem(rng, "MPS", big=(i % 2 == 0)) if i % 4 else G.gen_problem_kwbounds(rng, "MPS")
+            out.append((cid, "written by the library", None,
+                        "\n".join(["CASE %s" % cid, load_block(0, P), "WRITE h0 f MPS", "CAT f", "READ h0 f MPS", "DUMPO h0"]) + "\n"))
+            continue
+        K, spec = G.gen_known_mps(rng, big=(i % 2 == 0))
+        t, fl = G.render_mps(rng, K, spec, dollar=(i % 8 == 0))
+        kind = "rendered"
+        if i % 7 == 0:
+            t = t[:-1]
+        if i % 3 == 1:
+            t = G.mutate_tokens_mps(rng, t)
+            kind = "token-mutated"
+            if not G.exp_digits_ok(t):
+                t = "NAME t\nROWS\n N obj\n L r\nCOLUMNS\n x r 1e5 obj 1\nENDATA\n"
+        tb = t.encode("latin-1", "replace")
+        out.append((cid, kind, tb, "CASE %s\nPUT f %s\nREAD h0 f MPS\nDUMPO h0\n" % (cid, enc(tb))))
+    return out
+
+
+def part_mps_reader_model(ck, variant):
+    """tie of the MPS reader model (IO/MpsRead.read_mps_res, extracted) to mpq_QSget_prob (.., "MPS"): independently rendered files,
+    token-mutated files (mostly rejected) and files written by the library; both must reject, or both deliver problems that are
+    equiv_by_name in both directions with equal counts"""
+    sys.set_int_max_str_digits(0)
+    n = (3000 if ck.thorough() else 300)
+    cs = mps_tie_cases(ck.rng, n, G)
+    kind = {c[0]: c[1] for c in cs}
+    texts = {c[0]: c[2] for c in cs}
+    cases = [(c[0], c[3]) for c in cs]
+    scripts = dict(cases)
+    M, outs, crashes, _ = run_io_cases(cases, tag="C10m")
+    crashed = {c[0] for c in crashes}
+    q = ["M " + M]
+    lib = {}
+    for cid in kind:
+        toks = outs.get(cid)
+        if cid in crashed or toks is None:
+            continue          # a crash of the reader is C11's business; not a basis for the comparison
+        ops = split_ops(toks)
+        r = [o for o in ops if o[0][0] == "READ"]
+        d = [o for o in ops if o[0][0] == "P"]
+        if texts[cid] is None:
+            c = [o for o in ops if o[0][0] == "CAT"]
+            tb = cat_bytes(c[0]) if c else None
+            if tb is None:
+                continue
+            texts[cid] = tb
+        if len(texts[cid]) > 300000:
+            continue
+        if r and r[0][0][1] == "OK" and d:
+            P = dump_of(d[0])
+            lib[cid] = P
+            q.append("Q %s mpsread %d %s\n%s" % (cid, variant, enc(texts[cid]), slp_block(P)))
+        else:
+            lib[cid] = None
+            q.append("Q %s mpsread %d %s\nNONE" % (cid, variant, enc(texts[cid])))
+    ans = run_model_par("drv_io", q)
+    hist, bad, reasons = {}, [], {}
+    for cid in lib:
+        a = ans.get(cid)
+        ck.count(("mpsread", texts[cid]), nontrivial=(a is not None and a[0] == "OK"))
+        key = "%s: %s" % (kind[cid].split(" ")[0] if kind[cid].startswith(("probe ", "reason ")) else kind[cid],
+                          "accepted by both" if (a and a[0] == "OK" and lib[cid] is not None) else "rejected by both" if (a and a[0] != "OK" and lib[cid] is None) else "DISAGREE")
+        hist[key] = hist.get(key, 0) + 1
+        if a and a[0].startswith("ERR:"):
+            reasons[a[0][4:]] = reasons.get(a[0][4:], 0) + 1
+        if a is None or len(a) < 2 or a[1] != "true" or a[0] in ("FUEL", "FLT"):
+            bad.append((cid, a))
+        elif kind[cid].startswith("reason ") and a[0] != "ERR:" + kind[cid][7:]:
+            bad.append((cid, a + ["(expected rejection reason %s)" % kind[cid][7:]]))
+        elif kind[cid].startswith("probe ") and a[0] != "OK":
+            bad.append((cid, a + ["(a probe that the reader accepts)"]))
+    ck.cov["mps_reader_correspondence"] = dict(files=len(lib), outcome_histogram=hist, model_rejection_reasons=reasons, disagreements=len(bad))
+    for cid, a in bad[:3]:
+        ck.violation("mpsread_%s.txt" % cid, scripts[cid] + "\n# model answer (outcome, agree, ncols, nrows): %s\n# library: %s\n# text:\n%s\n" % (
+                         a, "rejected" if lib[cid] is None else problem_text(lib[cid]), texts[cid].decode("latin-1")),
+                     "MPS reader model (IO/MpsRead.read_mps_res) and mpq_QSget_prob disagree on %s file %s: model %s, library %s" % (
+                         kind[cid], cid, a, "rejected the file" if lib[cid] is None else "delivered a problem"),
+                     match=dict(kind="corr-mpsread"))
+    return len(lib)
+
+
 def main():
     ck = Check("C10", "proof")
     build_repo()
@@ -244,6 +338,7 @@ def main():
         variant = 0
     part_numbers(ck, variant)
     part_lp_reader_model(ck, variant)
+    part_mps_reader_model(ck, variant)
     nl = part_files(ck, "LP")
     nm = part_files(ck, "MPS")
     if not pr["ok"]:
@@ -255,11 +350,14 @@ def main():
                       "defaults, RANGES of both signs, BV/UI/LI/MI/PL/FR/FX bounds, RHS on the objective, blank set names, missing final newline; real reader -> "
                       "dump -> equiv_by_name with equal row/column counts; non-trivial = string consumed / file compared; distinct by text")
     ck.cov["rule"] += ("; part 0: extracted LP reader model IO/LpRead.read_lp_res vs mpq_QSget_prob on rendered files, token-mutated files (mostly rejected) and "
-                       "files written by the library: both reject, or both deliver problems equiv_by_name in both directions with equal counts")
+                       "files written by the library: both reject, or both deliver problems equiv_by_name in both directions with equal counts"
+                       "; part 0b: the same for the extracted MPS reader model IO/MpsRead.read_mps_res on independently rendered MPS files, token- and line-mutated files "
+                       "(section keywords, markers, SOS blocks, REFROW / OBJNAME insertions, set names, '$', number-like names, indentation), library-written files, "
+                       "32 hand-written probes of reader quirks (all accepted) and one file per rejection reason of the model (40; the model must name that reason)")
     ck.cov["not_covered"] = ("the file-level statement is proved for the LP reader MODEL and the writer's layout family only (C10_lp_written_file_partial, "
                              "C10_lp_expr_any_wrapping); for the other lexical freedoms (keyword spellings, comments, explicit '+', repeated terms, decimal / exponent "
                              "spellings inside files, several bound statements per line) the model is compared with the library file by file, not proved; "
-                             "the LP reader model is proved total (C10_lp_reader_total) and to depend on the bytes only through the cut lines (C10_lp_reader_cut, C10_lp_reader_bytes); no model of the MPS reader; blanks between 'inf' and '<=' are required by the reader and always rendered; SOS / REFROW not rendered")
+                             "the LP reader model is proved total (C10_lp_reader_total) and to depend on the bytes only through the cut lines (C10_lp_reader_cut, C10_lp_reader_bytes); the MPS reader model (IO/MpsRead.v) is proved total (C10_mps_reader_total), to read bytes as lines (C10_mps_reader_bytes) and to read the writer's layout (C10_mps_written_file_partial = C09_mps_roundtrip); the other lexical freedoms of MPS files are covered by the correspondence reader model = library, not by a theorem; blanks between 'inf' and '<=' are required by the reader and always rendered; SOS / REFROW not rendered")
     ck.assumptions = ["Coq kernel; extraction; OCaml", "renderers of checks/io_gen.py are independent of the Coq development", "harness h_io.c"]
     cleanup_scratch()
     ck.finish(trusted_base=["coqc 8.16.1 kernel", "OCaml extraction", "harness/h_io.c + checks/io_common.py + checks/io_gen.py + checks/C10.py"])
